@@ -1,4 +1,5 @@
 from excel2pycl.src.cell import Cell
+from excel2pycl.src.exceptions import E2PyclParserException
 from excel2pycl.src.tokens import EntryPointToken
 
 
@@ -10,6 +11,13 @@ class AstBuilder:
         previous_table = getattr(CompositeBaseToken._MEMO, 'table', None)
         CompositeBaseToken._MEMO.table = {}
         try:
-            return EntryPointToken.get(expression, in_cell)[0]
+            token, rest = EntryPointToken.get(expression, in_cell)
         finally:
             CompositeBaseToken._MEMO.table = previous_table
+
+        # a formula is translated whole or rejected: nothing may be left over and something must have been parsed
+        if token is None:
+            raise E2PyclParserException(f'The formula in {in_cell} does not match the supported grammar')
+        if rest:
+            raise E2PyclParserException(f'The formula in {in_cell} has an unparsed tail starting at {rest[0]}')
+        return token
